@@ -39,6 +39,9 @@ for d in sorted(glob.glob(R + '/seeded/C*-*')):
         if x['rc'] == 'rc=1':
             return 'caught: ' + re.sub(r'^violation detail: ', '', x.get('first_violation', ''))[:160].replace('|', '\\|')
         if x['rc'] == 'rc=0':
+            others = [k for k in r if k.startswith('other_check_') and r[k]['rc'] == 'rc=1']
+            if t == 'quick' and others:
+                return 'not by this check; reported by ' + ', '.join(k.split('_')[2] for k in others) + ': ' + r[others[0]]['first_violation'][:120].replace('|', '\\|')
             return '**missed**'
         return x['rc']
     def short(s, n):
